@@ -3,6 +3,7 @@ module verifharness
 go 1.26.8
 
 require (
+	github.com/goccy/go-json v0.10.2
 	github.com/smartcontractkit/chainlink-automation v0.0.0
 	github.com/smartcontractkit/chainlink-common v0.3.0
 	github.com/smartcontractkit/libocr v0.0.0-20241007185508-adbe57025f12
@@ -16,7 +17,6 @@ require (
 	github.com/go-echarts/go-echarts/v2 v2.2.6 // indirect
 	github.com/go-logr/logr v1.4.2 // indirect
 	github.com/go-logr/stdr v1.2.2 // indirect
-	github.com/goccy/go-json v0.10.2 // indirect
 	github.com/golang/protobuf v1.5.4 // indirect
 	github.com/google/uuid v1.6.0 // indirect
 	github.com/holiman/uint256 v1.2.4 // indirect
@@ -39,6 +39,7 @@ require (
 	golang.org/x/crypto v0.27.0 // indirect
 	golang.org/x/exp v0.0.0-20240909161429-701f63a606c0 // indirect
 	golang.org/x/sys v0.25.0 // indirect
+	gonum.org/v1/gonum v0.15.0 // indirect
 	google.golang.org/protobuf v1.34.2 // indirect
 )
 
